@@ -921,7 +921,7 @@ func (t *Term) write(sb *strings.Builder, names map[int]string) {
 
 // Script renders a complete SMT-LIB query: declarations used by the given
 // assertions, shared closed subterms as define-funs, then the assertions.
-func (c *Ctx) Script(logicHeader string, asserts []*Term, footer string) string {
+func (c *Ctx) Script(logicHeader string, asserts []*Term, footer string, extra ...*Term) string {
 	// collect reachable terms, refcounts
 	ref := map[int]int{}
 	var order []*Term
@@ -946,6 +946,12 @@ func (c *Ctx) Script(logicHeader string, asserts []*Term, footer string) string 
 	for _, a := range asserts {
 		visit(a)
 	}
+	nAssertTerms := len(order)
+	for _, a := range extra {
+		visit(a)
+		ref[a.ID] = 0
+	}
+	_ = nAssertTerms
 	usedConst := map[string]bool{}
 	usedFun := map[string]bool{}
 	usedSort := map[Sort]bool{}
@@ -1056,10 +1062,14 @@ func (c *Ctx) Script(logicHeader string, asserts []*Term, footer string) string 
 	for _, n := range cnames {
 		fmt.Fprintf(&sb, "(declare-const %s %s)\n", n, c.Consts[n])
 	}
-	// shared closed subterms
+	// shared closed subterms (terms reachable only from the extra roots are printed inline by the caller)
+	extraOnly := map[int]bool{}
+	for _, t := range order[nAssertTerms:] {
+		extraOnly[t.ID] = true
+	}
 	names := map[int]string{}
 	for _, t := range order {
-		if t.Kind == KApp && len(t.Args) > 0 && !t.open && ref[t.ID] > 1 {
+		if t.Kind == KApp && len(t.Args) > 0 && !t.open && ref[t.ID] > 1 && !extraOnly[t.ID] {
 			var b strings.Builder
 			t.write(&b, names)
 			name := fmt.Sprintf("d!%d", t.ID)
